@@ -392,6 +392,28 @@ pub fn draw_plan(seed: u64, index: u64) -> Plan {
             return Plan { tasks: vec![sc, t], placement: vec![vec![0], vec![1]], policy, sched_seed: rng.random(), schedule: None, twins: vec![(0, 1)], clock_jumps: vec![] };
         }
     }
+    // "container twins": four generators given the same steered input that builds a container with
+    // one deviating member (32 dict entries / 64 members) above a callable and an argument tuple, followed by a
+    // dozen free-running choices. The simulated containers are keyed by addresses and carry their
+    // own hasher state: anything decided from their iteration order differs between instances.
+    if index % 1000 == 502 || index % 1000 == 503 || index % 1000 == 504 {
+        let (builder, p) = [("DICT", 4u8), ("FROZENSET", 5), ("DICT", 2)][(index % 1000 - 502) as usize];
+        let ops = crate::engine::mixed_container_ops(builder, p);
+        let n = crate::synth::token_ops(&ops);
+        let mut sc = Scenario::solo(crate::engine::tree_config(p, n), desc::Entropy::Bytes(vec![]));
+        sc.steer = Some(desc::Steer { ops, tail: None, free: Some((12, rng.random())) });
+        // resolved here, outside the scheduled task threads
+        if let Some(mut sc) = crate::exec::resolve_steer(&sc) {
+            sc.hash_key = rng.random();
+            let mut tasks = vec![];
+            for _ in 0..4 {
+                let mut t = sc.clone();
+                t.hash_key = rng.random();
+                tasks.push(t);
+            }
+            return Plan { tasks, placement: vec![vec![0], vec![1], vec![2, 3]], policy: Policy::Bursty, sched_seed: rng.random(), schedule: None, twins: vec![(0, 1), (2, 3), (0, 2)], clock_jumps: vec![] };
+        }
+    }
     // one plan in 16 is a "long twins" plan: few tasks, thousands of opcodes each, so that the memo
     // grows past 256 entries (the BINGET candidate filter and other large-memo paths are exercised
     // under different hash keys)
